@@ -76,6 +76,41 @@ CHECKS = {
              "must succeed (non-vacuity).",
         note="Trusted: go-jose for decoding; one user (alice) authorizes, so subject confusion is detected as sub != alice.",
         ref="DESIGN.md 4 C12"),
+    "C13": dict(
+        module="KMWeb",
+        technique="TLA+ URL-structure model (TLC) + TLC-enumerated structures rendered to strings and run through the real "
+                  "validator, authorize endpoint and CORS rule + TLC trace monitor",
+        text="A redirect URI is modelled as a structure whose browser-view host is known by construction (host class "
+             "relative to the client's domain, user-info / fragment / backslash quirks, ports, path and query shapes); the "
+             "guards (https, no query, no '..', host at a label boundary, pattern match, known client) are checked by TLC "
+             "on the model and by the TLC monitor on what CanRedirectToURL, /idp/oauth2/authorize (Location header) and the "
+             "CORS origin rule actually answer for all 124k structure x client x site rows. One-directional, plus a "
+             "non-vacuity row (the plain legitimate URL must work).",
+        note="Trusted: the concretiser renders each structure to a string with the stated browser-view host (WHATWG rules "
+             "for user-info, fragment, backslash); domains configured without leading dot as documented.",
+        ref="DESIGN.md 4 C13"),
+    "C17": dict(
+        module="KMWeb",
+        technique="TLA+ destination grammar over character classes (TLC) + exhaustive class strings through the real "
+                  "redirecting handlers + TLC trace monitor on the observed Location",
+        text="SafeDest (leading single slash, second character neither slash nor backslash, no control character) is the "
+             "specification's filter; TLC checks the reference filter against it and enumerates every class string up to "
+             "length 3 (quick) / 4 (thorough) plus dangerous prefixes; each is submitted as login_destination to the "
+             "login, bootstrap-OTP and TOTP handlers and the classes of the OBSERVED Location header are validated by the "
+             "TLC monitor.",
+        note="VIP, Okta and OAuth2-callback redirect sites share getLoginDestination but are not yet driven (they need "
+             "the external-service fakes); listed in the evidence as handlers_bound.",
+        ref="DESIGN.md 4 C17"),
+    "C18": dict(
+        module="KMWeb",
+        technique="TLA+ sink x payload enumeration (TLC) + real pages parsed with the HTML5 tokenizer + TLC trace monitor",
+        text="TLC enumerates 14 request-controlled sinks x canary payloads built from 11 markup atoms (quotes, angle "
+             "brackets, entities, closing tags, script, attribute injection); every produced page is tokenised with the HTML5 "
+             "tokenizer and the projection reports whether the canary reached an element/attribute name, raw-text "
+             "(script/style) context, or escaped the node its start marker sits in; the monitor requires all findings inert.",
+        note="The HTML5 tokenizer (golang.org/x/net/html) is the oracle and trusted base; the specification contributes the "
+             "enumeration and the guard (said in DESIGN 5).",
+        ref="DESIGN.md 4 C18"),
 }
 PENDING_REASON = "check not built yet in this session (specification module planned in DESIGN.md section 4); not claimed until its check runs clean on the unchanged tree"
 ALL = ["C%02d" % i for i in range(1, 21)]
